@@ -33,6 +33,16 @@ def run_property(prop, tier, seed, work, jobs, t0):
         import selftest
         st_stats, st_viol = selftest.run([prop], os.path.join(work, "selftest"))
         extra["coverage"]["binding_selftest"] = st_stats
+    if tier == "thorough" or os.environ.get("VERIF_LEMMAS") == "1":
+        import lemmas
+        if prop in lemmas.RELEVANT:
+            res = lemmas.prove(work)
+            res["theorems_used_for_this_property"] = lemmas.RELEVANT[prop]
+            extra["coverage"]["tlaps_lemmas"] = res
+            if res["status"] not in ("proved", "skipped"):
+                log(f"[lemmas] WARNING: spec/Lemmas.tla not fully proved ({res}); this concerns the specification only")
+            else:
+                log(f"[lemmas] spec/Lemmas.tla: {res}")
     mc_stats = None
     try:
         import mc
